@@ -106,6 +106,13 @@ impl Prop for C07 {
     fn cases(&self, tier: Tier) -> u64 {
         tier.pick(300000, 3000000)
     }
+    fn fuzz_plan(&self, tier: Tier) -> Vec<(&'static str, u64)> {
+        if tier == Tier::Thorough {
+            vec![("prop", 100000_u64)]
+        } else {
+            vec![]
+        }
+    }
     fn choice_len(&self) -> usize {
         8000
     }
